@@ -71,6 +71,24 @@ theorem applyOp_bal (tl : TL) (op : Op) (hA : AllFresh tl.tracks) :
           rcases hx with hx | rfl
           · exact hA x hx
           · simp only [Fresh, hf]; simp [newTrack]
+  | scheduleAt idx sid qz dl count rwd =>
+    simp only [applyOp]
+    split
+    · exact ⟨Bal.of_pend_eq rfl, hA⟩
+    · obtain ⟨ho, _, hf, _⟩ := updateCore_offs tl (newTrack tl.nextId none (count.getD 0) rwd) sid qz dl none
+      constructor
+      · apply Bal.of_pend_eq
+        have hsplit : pendTracks nc (tl.tracks.take idx) + pendTracks nc (tl.tracks.drop idx) = pendTracks nc tl.tracks := by
+          rw [← pendTracks_append, List.take_append_drop]
+        simp only [pend, pendTracks_append, pendTracks_cons, ho]
+        simp only [newTrack, pendOffs_nil]
+        omega
+      · intro x hx
+        simp only [List.mem_append, List.mem_cons] at hx
+        rcases hx with hx | rfl | hx
+        · exact hA x (List.mem_of_mem_take hx)
+        · simp only [Fresh, hf]; simp [newTrack]
+        · exact hA x (List.mem_of_mem_drop hx)
   | update tid sid qz dl count =>
     simp only [applyOp]
     split
